@@ -14,6 +14,12 @@
 //! Output lines:
 //!     <id> status ok | rejected <hex message> | panic <hex message>
 //!     <id> dump <grammar part of the verif hook dump, records joined by '|'>      (status ok only)
+//!     <id> skel <type and fn items of the generated g_actions.rs, canonical, joined by ';'>   (default builder)
+//!     <id> arms <every call `g_actions::f(args)` of the generated g.rs in file order, joined by ';'>
+//!
+//! Canonical items (no blanks): `T:Name=Type`, `S:Name{field:Type,...}`, `E:Name{Variant(Type),Variant,...}`,
+//! `F:name(param:Type,...)->Type` (the leading `_ctx: &Ctx` parameter is dropped). The header items
+//! `Input`, `Ctx`, `Token` are skipped.
 use std::{fs, io::Write, panic, path::PathBuf};
 
 use rustemo_compiler::{BuilderType, GeneratorTableType, LexerType, ParserAlgo, Settings};
@@ -60,6 +66,120 @@ fn panic_text(e: Box<dyn std::any::Any + Send>) -> String {
     }
 }
 
+fn ty(t: &syn::Type) -> String {
+    quote::ToTokens::to_token_stream(t).to_string().replace(' ', "")
+}
+
+/// canonical rendering of the items of the generated actions file
+fn skeleton(path: &std::path::Path) -> Option<String> {
+    let text = fs::read_to_string(path).ok()?;
+    let file = syn::parse_file(&text).ok()?;
+    let mut out: Vec<String> = vec![];
+    for item in &file.items {
+        match item {
+            syn::Item::Type(t) => {
+                let n = t.ident.to_string();
+                if n == "Input" || n == "Ctx" || n == "Token" {
+                    continue;
+                }
+                out.push(format!("T:{}={}", n, ty(&t.ty)));
+            }
+            syn::Item::Struct(s) => {
+                let fields: Vec<String> = s
+                    .fields
+                    .iter()
+                    .map(|f| format!("{}:{}", f.ident.as_ref().map_or("_".to_string(), |i| i.to_string()), ty(&f.ty)))
+                    .collect();
+                out.push(format!("S:{}{{{}}}", s.ident, fields.join(",")));
+            }
+            syn::Item::Enum(e) => {
+                let vs: Vec<String> = e
+                    .variants
+                    .iter()
+                    .map(|v| {
+                        let tys: Vec<String> = v.fields.iter().map(|f| ty(&f.ty)).collect();
+                        if tys.is_empty() {
+                            v.ident.to_string()
+                        } else {
+                            format!("{}({})", v.ident, tys.join(","))
+                        }
+                    })
+                    .collect();
+                out.push(format!("E:{}{{{}}}", e.ident, vs.join(",")));
+            }
+            syn::Item::Fn(f) => {
+                let mut ps: Vec<String> = vec![];
+                for (i, a) in f.sig.inputs.iter().enumerate() {
+                    if let syn::FnArg::Typed(p) = a {
+                        let name = match &*p.pat {
+                            syn::Pat::Ident(pi) => pi.ident.to_string(),
+                            _ => "_".to_string(),
+                        };
+                        if i == 0 && name == "_ctx" {
+                            continue;
+                        }
+                        ps.push(format!("{}:{}", name, ty(&p.ty)));
+                    }
+                }
+                let ret = match &f.sig.output {
+                    syn::ReturnType::Default => "()".to_string(),
+                    syn::ReturnType::Type(_, t) => ty(t),
+                };
+                out.push(format!("F:{}({})->{}", f.sig.ident, ps.join(","), ret));
+            }
+            _ => {}
+        }
+    }
+    Some(out.join(";"))
+}
+
+/// every `g_actions::name(args)` call of the generated parser, in file order
+fn arms(path: &std::path::Path) -> Option<String> {
+    let text = fs::read_to_string(path).ok()?;
+    let b = text.as_bytes();
+    let pat = b"g_actions::";
+    let mut out: Vec<String> = vec![];
+    let mut i = 0;
+    while i + pat.len() < b.len() {
+        if &b[i..i + pat.len()] == pat {
+            let mut j = i + pat.len();
+            let s = j;
+            while j < b.len() && (b[j].is_ascii_alphanumeric() || b[j] == b'_') {
+                j += 1;
+            }
+            let name = &text[s..j];
+            let mut k = j;
+            while k < b.len() && b[k].is_ascii_whitespace() {
+                k += 1;
+            }
+            if k < b.len() && b[k] == b'(' && name.chars().next().map_or(false, |c| c.is_ascii_lowercase() || c == '_') {
+                let mut depth = 0;
+                let mut e = k;
+                while e < b.len() {
+                    if b[e] == b'(' {
+                        depth += 1;
+                    } else if b[e] == b')' {
+                        depth -= 1;
+                        if depth == 0 {
+                            break;
+                        }
+                    }
+                    e += 1;
+                }
+                let args: String = text[k + 1..e].chars().filter(|c| !c.is_whitespace()).collect();
+                let args = args.trim_end_matches(',').to_string();
+                out.push(format!("{}({})", name, args));
+                i = e;
+                continue;
+            }
+            i = j;
+            continue;
+        }
+        i += 1;
+    }
+    Some(out.join(";"))
+}
+
 fn main() {
     let args: Vec<String> = std::env::args().collect();
     let jobs = fs::read_to_string(&args[1]).expect("jobs file");
@@ -102,6 +222,14 @@ fn main() {
                         })
                         .collect();
                     let _ = writeln!(out, "{id} dump {}", keep.join("|"));
+                }
+                if f[4] == "D" {
+                    if let Some(sk) = skeleton(&dir.join("g_actions.rs")) {
+                        let _ = writeln!(out, "{id} skel {}", sk);
+                    }
+                    if let Some(a) = arms(&dir.join("g.rs")) {
+                        let _ = writeln!(out, "{id} arms {}", a);
+                    }
                 }
             }
         }
